@@ -74,7 +74,8 @@ VALUES: dict[str, list] = {
     'bool': [('t', True), ('f', False)],
     'string': [('ascii', 'abc'), ('nonascii', 'é'), ('empty', ''), ('quote', 'say "hi"'), ('bslash', 'a\\b'),
                ('nl', 'l1\nl2'), ('crlf', 'a\r\nb'), ('tab', '\tx'), ('astral', '\U0001F600x'), ('squote', "it's"),
-               ('brace', '{[x]}'), ('comment', '//c'), ('trailbs', 'end\\')],
+               ('brace', '{[x]}'), ('comment', '//c'), ('trailbs', 'end\\'),
+               ('len255', 'x' * 255), ('len256', 'y' * 256), ('len600', 'ab' * 300)],
     'binary': [('one', '00'), ('big300', BLOB300), ('empty', ''), ('ffq', 'ff0022')],
     'time': [('1p5', 15000 / 10000.0), ('max', (2 ** 31 - 1) / 10000.0), ('0', 0.0), ('neg', -22500 / 10000.0),
              ('tick', 1 / 10000.0), ('min', -2 ** 31 / 10000.0)],
@@ -178,6 +179,8 @@ def build(doc: dict) -> Element:
     for e, el in zip(els, doc['els']):
         if el.get('nk'):
             e[el['nk']] = el['n']
+        if el.get('noname') == 'clear':
+            e.clear()
         for name, vt, shape, payload in el['a']:
             if vt == VT_ELEMENT:
                 if shape == 's':
@@ -191,6 +194,10 @@ def build(doc: dict) -> Element:
                     e[name] = mk_value(vt, payload)
             else:
                 e[name] = Attribute.array(name, ValueType(vt), [mk_value(vt, p) for p in payload])
+        if el.get('noname') == 'del':
+            del e['name']
+        elif el.get('noname') == 'pop':
+            e.pop('name')
     return els[0]
 
 
@@ -605,6 +612,8 @@ def fclass(f) -> str:
         return 'graph:' + ','.join(graph_tags(f[1]))
     if f[0] == 'namekey':
         return 'namekey_cased'
+    if f[0] == 'noname':
+        return f'noname:{f[1]}'
     raise AssertionError(f)
 
 
@@ -640,6 +649,14 @@ def compose(feats):
         root['a'].insert(0, ['d', VT_ELEMENT, 'a', [2]])
         root['a'].insert(0, ['c', VT_ELEMENT, 's', 1])
     for f in feats:
+        if f[0] == 'noname':
+            # the element lost its `name` member (del / pop / clear): its name reads '' and must round-trip as ''
+            if any(g[0] == 'namekey' or (g[0] == 'name' and (g[1] == 'elname' or (g[1] == 'child_name' and f[2] == 'all'))) for g in feats):
+                return None
+            for el in (els if f[2] == 'all' else els[:1]):
+                el['noname'] = f[1]
+                el['n'] = ''
+            root['a'].append(['after_name', 'int', 's', 7])
         if f[0] == 'namekey':
             if f[1].casefold() != 'name' or f[1] == 'name':
                 return None
@@ -1120,7 +1137,7 @@ ALLCFG = ([{'enc': 'bin', 'ver': v, 'uni': u} for v in (1, 2, 3, 4, 5) for u in 
 GRAPHCFG = [c for c in ALLCFG if c['uni'] == 'ascii']
 GRAPHCFG_TOP = [c for c in GRAPHCFG if c.get('ver') in (1, 5) or (c['enc'] == 'kv2' and c['flat'] == c['cull'])]
 
-NAMES = ['a', 'A', 'id', 'ID', 'we"ird', 'back\\slash', 'bs\\n', 'sp ace', '\u00e9', '', "it's", 'l1\nl2', 'name', 'Name']
+NAMES = ['a', 'A', 'id', 'ID', 'we"ird', 'back\\slash', 'bs\\n', 'sp ace', '\u00e9', '', "it's", 'l1\nl2', 'name', 'Name', 'L' * 256, 'M' * 300]
 NAMEKEYS = ['Name', 'NAME']
 REP_GRAPHS = [
     [[['s', 1]], [['s', 2]], []],                       # chain
@@ -1176,8 +1193,9 @@ def name_feats():
 
 def dmx_feature_lists(depth: int):
     """Every document of the feature families, each exactly once (invalid combinations are dropped)."""
+    nn = [['noname', how, which] for how in ('del', 'pop', 'clear') for which in ('root', 'all')]
     singles = list(val_singles()) + list(name_feats()) + [['namekey', k] for k in NAMEKEYS] \
-        + [['graph', g] for g in REP_GRAPHS]
+        + [['graph', g] for g in REP_GRAPHS] + nn
     yield []
     for f in singles:
         yield [f]
@@ -1190,8 +1208,11 @@ def dmx_feature_lists(depth: int):
     for a, b in itertools.combinations(nm, 2):
         if a[1] != b[1]:
             yield [a, b]
-    for a in nm + nk + gr:
+    for a in nm + nk + gr + nn:
         for b in vm:
+            yield [a, b]
+    for a in nn:
+        for b in gr + nm:
             yield [a, b]
     for a in nk + gr:
         for b in nm:
